@@ -564,7 +564,17 @@ func init() {
 								blame, class = "number-literal-before-dot-ambiguous", 3
 							case class < 2 && ch.kind == "Default":
 								blame, class = "drops-parens-of-default-operand", 2
-							case class < 2 && op && (k.name == "Func" || (k.name == "Expr" && y.kind != "UnaryOperator")):
+							case class < 2 && op && k.name == "Func" && y.kind == "Call":
+								// the callee of a call is an operator expression: keyed by the operator, so that a
+								// new operator losing its parentheses is not hidden by the known ones
+								opname := ch.kind
+								for _, sc := range ch.scal {
+									if sc.name == "Op" && ch.kind == "UnaryOperator" {
+										opname += "-" + sc.val
+									}
+								}
+								blame, class = "drops-parens-of-callee-"+strings.ToLower(opname), 2
+							case class < 2 && op && k.name == "Expr" && y.kind != "UnaryOperator" && y.kind != "Call":
 								blame, class = "drops-parens-of-operator-operand", 2
 							case class < 2 && y.kind == "ChanType" && ch.kind == "ChanType":
 								blame, class = "chan-of-chan-ambiguous", 2
